@@ -56,6 +56,11 @@ def run(ctx: Ctx, rep: Report) -> None:
     # qudits in their original order
     from ..rules.stablemove import rule_stablemove
     rule_stablemove(ctx, rep, 'bqskit/passes/', 1)
+    # enumeration indices used as identifiers (Walsh string ids, block ids)
+    from ..rules.enumid import rule_enumid
+    rule_enumid(ctx, rep, ('bqskit/passes/synthesis/',
+                           'bqskit/passes/processing/',
+                           'bqskit/passes/rules/'), 5)
     # a structural pass that re-wraps a block keeps the operation's params
     from ..rules.paramflow import rule_paramflow
     rule_paramflow(
